@@ -113,6 +113,7 @@ def main():
     inplace_scalar()
     aliasing()
     lengths()
+    inplace_addsub()
     print('EXPR-JSON ' + json.dumps(fails))
 
 
@@ -147,6 +148,62 @@ def lengths():
         if got != want or len(v) != want:
             fail('len-value', {'expression': nm, 'len(f)': got,
                                'len(f.value())': len(v), 'rule': want})
+
+
+def inplace_addsub():
+    """f += g and f -= g: the value afterwards is the sum (difference) of the
+    values before, a convex minus a concave function is convex (and vice
+    versa), and a result that is neither is refused"""
+    from cvxopt.modeling import max as mmax, min as mmin
+    x = variable(2, 'x')
+    y = variable(2, 'y')
+    x.value = matrix([1.0, -2.0])
+    y.value = matrix([0.5, 3.0])
+
+    def funcs():
+        return {'affine': lambda: 2.0 * x + 1.0, 'affine1': lambda: x[0] + 3.0,
+                'convex': lambda: mmax(x, y) + x, 'concave': lambda:
+                mmin(x, y) - 1.0, 'convex1': lambda: mmax(x) + 2.0,
+                'concave1': lambda: mmin(y) - x[1]}
+    curv = {'affine': 'a', 'affine1': 'a', 'convex': 'x', 'convex1': 'x',
+            'concave': 'v', 'concave1': 'v'}
+    for sign, opn in ((1, '+='), (-1, '-=')):
+        for n1, mk1 in funcs().items():
+            for n2, mk2 in funcs().items():
+                f, g = mk1(), mk2()
+                fv, gv = list(f.value()), list(g.value())
+                c2 = curv[n2] if sign > 0 else {'a': 'a', 'x': 'v',
+                                               'v': 'x'}[curv[n2]]
+                ok_curv = 'a' in (curv[n1], c2) or curv[n1] == c2
+                ok_len = len(gv) in (1, len(fv))
+                try:
+                    if sign > 0:
+                        f += g
+                    else:
+                        f -= g
+                except (ValueError, TypeError):
+                    if ok_curv and ok_len:
+                        fail('iaddsub-value', {'f': n1, 'op': opn, 'g': n2,
+                                               'refused': True})
+                    continue
+                if not (ok_curv and ok_len):
+                    fail('iaddsub-value', {'f': n1, 'op': opn, 'g': n2,
+                                           'accepted': True})
+                    continue
+                want = [a + sign * (gv[i] if len(gv) > 1 else gv[0])
+                        for i, a in enumerate(fv)]
+                got = list(f.value())
+                res = curv[n1] if curv[n1] != 'a' else c2
+                flags = (f._isconvex(), f._isconcave())
+                wantflags = {'a': (True, True), 'x': (True, False),
+                             'v': (False, True)}[res]
+                if len(got) != len(want) or any(
+                        abs(u - v) > 1e-9 for u, v in zip(got, want)) or \
+                        flags != wantflags:
+                    fail('iaddsub-value', {
+                        'f': n1, 'op': opn, 'g': n2, 'value': got,
+                        'expected': want, '(convex, concave)': flags,
+                        'expected flags': wantflags})
 
 
 def aliasing():
